@@ -214,15 +214,17 @@ pub fn spec(r: &mut Rng, p: &Profile) -> Spec {
     if r.chance(p.stream_pm) {
         let n = r.below(6);
         let items: Vec<u32> = (0..n).map(|i| 200 + i as u32).collect();
+        let infinite = r.chance(150);
         s.stream = Some(StreamSpec {
-            initially: r.below(n + 1) as usize,
-            ends: r.chance(500),
+            initially: if infinite { n as usize } else { r.below(n + 1) as usize },
+            ends: !infinite && r.chance(500),
             items,
+            infinite,
         });
         if !matches!(s.entry, Entry::OnStream | Entry::OwningOnStream | Entry::Builder | Entry::BuilderOwning) {
             s.entry = Entry::Builder;
         }
-        s.item_sleep = if r.chance(400) { 1 + 2 * r.below(10) } else { 0 };
+        s.item_sleep = if infinite || r.chance(400) { 1 + 2 * r.below(10) } else { 0 };
     } else if matches!(s.entry, Entry::OnStream | Entry::OwningOnStream) {
         s.entry = Entry::Builder;
     }
